@@ -240,6 +240,11 @@ def check_predict(ctx, repo):
                 bad("R2", p, "a returned prediction is counted as eval+%d predict+%d" % (n_eval, n_pred), "prediction-counted")
             if f.obj_calls != 0:
                 bad("R3", p, "the objective is also evaluated (%d call) on a prediction path" % f.obj_calls, "objective-once")
+            n_tr = sum(1 for _, k, _c in f.events if k == "train")
+            n_ad = sum(1 for _, k, _c in f.events if k == "add_data")
+            if n_tr or n_ad:
+                bad("R4", p, "a request answered by a prediction %s: retraining must happen exactly at every train_step-th true evaluation and only true values are training data"
+                    % ("retrains the model" if n_tr else "adds training data"), "train-when")
         elif f.ret_tag == "OBJ":
             seen_eval += 1
             if f.ret_modified:
